@@ -17,7 +17,7 @@ Eof == Is("eof") /\ Verdict /\ UNCHANGED <<tid, status, S>>
 Conf == /\ Is("config")
         /\ LET want == Canon(S.fv, S.first)   got == Ev.proj IN
            Mark(All(<<Check("config.read", Ev.ok),
-                      Check("config.times", Ev.ok => (got.start = S.start /\ got.stop = S.stop /\ got.dt = S.dt)),
+                      Check("config.times", Ev.ok => (got.start = S.start /\ got.stop = S.stop /\ got.dt = S.dt /\ got.ref = S.ref)),
                       Check("config.grid", Ev.ok => (got.gridfile = want.gridfile /\ got.subgrid = want.subgrid)),
                       Check("config.forcing", Ev.ok => got.forcing = want.forcing),
                       Check("config.grid_module_is_forcing_module", Ev.ok => got.gridmod = got.forcemod),
